@@ -74,7 +74,7 @@ def tasks(tier, seed):
             out.append({"fn": "destructive", "kwargs": {"models": ms, "n": n, "tier": tier}, "label": f"destructive/{ms},n={n}", "logic": "QF_NRA", "caps": {"max_seconds": 300, "solver_timeout_ms": 30000}})
     # every detector type (the reset between steps is type-specific)
     for det in ("cmos", "mkid", "apd"):
-        for n in ((2, 3) if tier == "quick" else (2, 3, 4)):
+        for n in ((2,) if tier == "quick" else (2, 3, 4)):
             out.append({"fn": "nondestructive", "kwargs": {"models": "uniform", "n": n, "tier": tier, "detector": det}, "label": f"nondestructive/uniform,n={n}/{det}", "logic": "QF_NRA", "caps": {"max_seconds": 300, "solver_timeout_ms": 30000}})
         out.append({"fn": "destructive", "kwargs": {"models": "uniform", "n": 2, "tier": tier, "detector": det}, "label": f"destructive/uniform,n=2/{det}", "logic": "QF_NRA", "caps": {"max_seconds": 300, "solver_timeout_ms": 30000}})
     if tier == "thorough":
